@@ -55,7 +55,7 @@ def run(tier, seed):
     for k, v in want.items():
         if (lim.get(k) is None) or (lim.get(k) < v if k == "STRING_LARGEST_POSSIBLE" else lim.get(k) != v):
             rep.violation(f"C09/limit/{k}", f"published limit {k} is {lim.get(k)} in the generator source, the model uses {v}", {"limit": k, "source": lim.get(k), "model": v}, no_input=True)
-    conts = build_corpus()
+    conts = build_corpus(expanded=True)
     ok = [c for c in conts if "tokens" in c and c["lib"] != "login"]
     d = Driver()
     bnds = d.ask_many([f"bounds {c['key']}" for c in ok])
